@@ -97,7 +97,9 @@ def render(kinds, d=0, ctx=None):
     if k == 'lambda':
         inner = {'fn': ctx['fn'], 'cls_nearest': False, 'lam': True}
         ch = child(inner, False)
-        return 'expr', [f'lambda lp{s}, lq{s}=ldq{s}, *la{s}, lk{s}=ldk{s}, **lkw{s}: (lp{s}, lfr{s}, {up},'] + indent(ch) + [')']
+        # defaults are evaluated where the lambda stands: a walrus in one binds there (inside a comprehension: in the enclosing function)
+        dflt = f'ldq{s}' if ctx.get('cls_nearest') or ctx.get('no_walrus') else f'(lwd{s} := ldq{s})'
+        return 'expr', [f'lambda lp{s}, lq{s}={dflt}, *la{s}, lk{s}=ldk{s}, **lkw{s}: (lp{s}, lfr{s}, {up},'] + indent(ch) + [')']
     if k == 'lambda0':  # a lambda without any default: nothing of it belongs to the enclosing scope
         inner = {'fn': ctx['fn'], 'cls_nearest': False, 'lam': True}
         ch = child(inner, False)
@@ -247,9 +249,10 @@ def comp_walrus_names(scope_a):
     """Names bound by a walrus anywhere inside comprehensions below (or at) this scope node."""
     out = set()
 
-    def inside(n):  # walrus targets below a comprehension, not crossing into lambdas (they bind there)
-        for m in ast.iter_child_nodes(n):
+    def inside(n):  # walrus targets below a comprehension, not crossing into lambda bodies (they bind there; the defaults of a
+        for m in ast.iter_child_nodes(n):  # lambda are evaluated where the lambda stands: symtable puts their walrus names here)
             if isinstance(m, ast.Lambda):
+                inside(m.args)
                 continue
             if isinstance(m, ast.NamedExpr) and isinstance(m.target, ast.Name):
                 out.add(m.target.id)
